@@ -690,6 +690,21 @@ func cliLeg(c *harness.Ctx, rng *rand.Rand, class string, blob []byte, idx desyn
 			off, length = 0, 0
 		}
 		args = append(args, idxFile)
+		// the output goes to STDOUT, or to a file named on the command line - which may exist already, holding more
+		// than this run writes (an earlier, longer cat)
+		outFile := ""
+		if rng.Intn(3) == 0 {
+			outFile = filepath.Join(dir, fmt.Sprintf("cat-out-%d", k))
+			switch rng.Intn(3) {
+			case 1:
+				dsu.WriteFile(outFile, []byte("short"))
+			case 2:
+				junk := make([]byte, L+1+rng.Intn(5000))
+				rng.Read(junk)
+				dsu.WriteFile(outFile, junk)
+			}
+			args = append(args, outFile)
+		}
 		cmd := exec.Command(cli, args...)
 		cmd.Env = append(os.Environ(), "HOME="+dir)
 		var stdout, stderr bytes.Buffer
@@ -702,6 +717,12 @@ func cliLeg(c *harness.Ctx, rng *rand.Rand, class string, blob []byte, idx desyn
 		if err != nil {
 			c.Violation("cli-error", "desync %v: %v\n%s", args, err, stderr.String())
 			return
+		}
+		if outFile != "" {
+			b, _ := os.ReadFile(outFile)
+			stdout.Reset()
+			stdout.Write(b)
+			c.Count("cli_cat_into_a_file", 1)
 		}
 		if !bytes.Equal(stdout.Bytes(), want) {
 			c.Violation("cli-bytes", "desync %v wrote %d bytes, expected %d (blob %d bytes)", args, stdout.Len(), len(want), L)
